@@ -184,3 +184,17 @@ var ghostTableURI func(t *Table) string
 //@   ensures si.itemsWritten == old(si.itemsWritten) + 1
 //@   ensures old(si.itemsWritten)%16 == 0 ==> len(si.offsets) == old(len(si.offsets)) + 1 && si.offsets[old(len(si.offsets))] == uint32(offset)
 //@   ensures old(si.itemsWritten)%16 != 0 ==> same(si.offsets, old(si.offsets))
+
+// ---- compaction (C18). Moving tables to the base level is only safe for a
+// selection that is closed downwards: if a table of level i is merged into the
+// base, every table of every deeper non-base level j > i is merged as well -
+// otherwise newer data ends up beneath older data for the same key.
+//@ define inList(ts, x) := exists(0, len(ts), func(pp_ int) bool { return ts[pp_] == x })
+
+//@ func Compactor.majorCompaction
+//@   property C18
+//@   nosafety
+//@   requires levels != nil && len(levels.levels) >= 2 && forall(0, len(levels.levels), func(i int) bool { return levels.levels[i].tables != nil })
+//@   ensures result1 == nil ==> result0 != nil && forall(0, len(levels.levels)-1, func(i int) bool { return forall(i+1, len(levels.levels)-1, func(j int) bool {
+//@           return forall(0, len(levels.levels[i].tables.l), func(a int) bool { return forall(0, len(levels.levels[j].tables.l), func(b int) bool {
+//@             return inList(result0.removals, levels.levels[i].tables.l[a]) ==> inList(result0.removals, levels.levels[j].tables.l[b]) }) }) }) })
